@@ -106,6 +106,8 @@ class Engine(ExprMixin, CallMixin, StmtMixin):
         if ty in self.reg.views:
             if v.ty != 'obj':
                 return False
+            if 'view' in v.a:
+                return v.a['view'] == ty
             q = self.reg.views[ty].qual
             return v.a['cls'] == q or q in self.repo.mro(v.a['cls'])
         if ty.startswith('fn:'):
@@ -328,7 +330,7 @@ class Engine(ExprMixin, CallMixin, StmtMixin):
         self.stats['paths'] += len(outs)
         # vacuity guard: some normal (or declared exceptional) exit must be reachable under the hypotheses
         exits = [o for o in outs if o[0] in ('fall', 'return')] or [o for o in outs if o[0] == 'raise']
-        for n, o in enumerate(exits[:3]):
+        for n, o in enumerate(exits[:12]):
             self.obls.append(Obl('%s#exit-reachable[%d]' % (c.key, n), o[1].hyps(), BoolVal(False), 'V', (),
                                  meta={'expect': 'sat', 'group': c.key + '#exit-reachable'}, func=c.key))
         if not exits:
@@ -521,7 +523,7 @@ class Engine(ExprMixin, CallMixin, StmtMixin):
         ctx_n = Ctx(self, sn, dict(binding, result=res), old=pre, old_names=binding, module=mod)
         for cl in c.ensures:
             self.assume_clause(sn, self.spec.clause(cl.text, ctx_n))
-        for h in c.hooks:
+        for h in c.hooks + self.reg.post_hooks:
             h(self, sn, dict(binding, result=res), pre)
         outs.append(('val', sn, res))
         return outs
